@@ -26,7 +26,7 @@ open Lean Elab Tactic Meta in
 and add its instance as `hsub` -/
 elab "mono_find" : tactic => withMainContext do
   let g ← getMainGoal
-  let t ← instantiateMVars (← g.getType)
+  let t := (← instantiateMVars (← g.getType)).consumeMData
   let args := t.getAppArgs
   unless t.isAppOf ``PLe && args.size == 3 do throwError "not a PLe goal"
   let lhs := args[1]!
@@ -51,7 +51,7 @@ open Lean Elab Tactic Meta in
 /-- goal `PLe (match (if c then a else b) with …) _`: case split on `c` -/
 elab "mono_ite" : tactic => withMainContext do
   let g ← getMainGoal
-  let t ← instantiateMVars (← g.getType)
+  let t := (← instantiateMVars (← g.getType)).consumeMData
   let args := t.getAppArgs
   unless t.isAppOf ``PLe && args.size == 3 do throwError "not a PLe goal"
   let lhs := args[1]!
